@@ -103,8 +103,7 @@ func runLpBurst(t task, a *acc) {
 		}
 		c := burstDecode(i)
 		frames := burstFrames(c)
-		setThreads(cfg.n)
-		l := fwface.VerifC04NewLinkService(7, cfg.local, 8800)
+		l := lpNewService(t.N)
 		mark(t.ID, i, -1-t.N)
 		dispatched := 0
 		for fi, f := range frames {
